@@ -78,6 +78,7 @@ pub struct Ctx {
     pub replay_dir: PathBuf,
     pub known: Vec<(String, String)>, // (property, signature)
     pub strict: bool,                 // replay mode: known findings are not tolerated silently
+    pub replay_src: Option<String>,   // replay mode: the file being replayed
     inner: RefCell<Inner>,
 }
 
@@ -179,6 +180,7 @@ impl Ctx {
             replay_dir: PathBuf::from(&args.replays),
             known,
             strict: args.replay.is_some(),
+            replay_src: args.replay.clone(),
             inner: RefCell::new(Inner {
                 sample_stride: 1,
                 ..Default::default()
@@ -291,6 +293,12 @@ impl Ctx {
     }
 
     pub fn violation(&self, f: &Fail, case: Value) {
+        // replaying a saved case: the file that was given is the replay file; it is never rewritten
+        if let Some(src) = &self.replay_src {
+            let mut i = self.inner.borrow_mut();
+            i.violations.push(Violation { sig: f.sig.clone(), msg: f.msg.clone(), replay: src.clone() });
+            return;
+        }
         let n = self.inner.borrow().violations.len();
         std::fs::create_dir_all(&self.replay_dir).ok();
         let name = format!(
@@ -317,6 +325,10 @@ impl Ctx {
             msg: f.msg.clone(),
             replay: path.to_string_lossy().to_string(),
         });
+    }
+
+    pub fn last_replay(&self) -> Option<String> {
+        self.inner.borrow().violations.last().map(|v| v.replay.clone())
     }
 
     pub fn n_violations(&self) -> usize {
